@@ -423,7 +423,9 @@ def gen_scalar(rng, pre3, kinds=None):
         naive = datetime.datetime(rng.choice([1970, 2000, 2020, 2021, 1950, 2037]), rng.randint(1, 12), rng.randint(1, 28),
                                   rng.randint(0, 23), rng.randint(0, 59), rng.randint(0, 59),
                                   rng.choice([0, 0, 1, 999999, rng.randint(0, 999999)]))
-        return tz.localize(naive)
+        # (a local time inside a DST gap does not exist: normalize() moves it to the valid spelling of the same instant,
+        #  otherwise the value would carry an offset its zone does not have at that instant)
+        return tz.normalize(tz.localize(naive))
     if k == 'coord':
         return h.Coordinate(rng.choice([0.0, -27.4725, 90.0, -90.0, round(rng.uniform(-90, 90), rng.choice([0, 3, 6, 9]))]),
                             rng.choice([0.0, 153.003, 180.0, -180.0, round(rng.uniform(-180, 180), rng.choice([0, 3, 6, 9]))]))
